@@ -262,6 +262,27 @@ def run(ctx) -> None:
                                 okv = True
         rep.add("C11.R2", f"{m.qname}:failed-values", okv, f"{m.module.rel}:{h.lineno}", "FAILED values = filter_outputs(carried partial state)" if okv else "FAILED result values do not derive from the carried partial state")
 
+    # the carrier's constructor is total: wrapping must succeed for *every* exception object a node can raise
+    # (empty args, keyword-only structured errors, BaseException subclasses), otherwise the failure of the
+    # wrapper replaces the node's exception
+    ee = db.cls("exceptions.ExecutionError")
+    init = ee.methods.get("__init__")
+    bad_ops = []
+    if init is not None:
+        for x in walk_local(init.node):
+            if isinstance(x, ast.Subscript) and isinstance(x.ctx, ast.Load):
+                bad_ops.append(x)
+            if isinstance(x, ast.Call):
+                d_ = dotted(x.func) or src(x.func)
+                if d_ not in ("super", "super().__init__", "str", "repr", "type"):
+                    bad_ops.append(x)
+            if isinstance(x, (ast.Raise, ast.Assert)):
+                bad_ops.append(x)
+            if isinstance(x, ast.Attribute) and isinstance(x.ctx, ast.Load) and isinstance(x.value, ast.Name) and x.value.id in init.param_names and x.value.id != "self":
+                bad_ops.append(x)
+    ok = init is not None and not bad_ops
+    rep.add("C11.R2", f"{ee.qname}.__init__:total", ok, init.loc() if init else ee.loc(), "the carrier is built from str(cause) and plain attribute stores only: it cannot fail for any exception object" if ok else f"'{src(bad_ops[0])[:60]}' can raise for some exception objects (e.g. args == ()): the run then surfaces the wrapper's own failure instead of the exception the node raised")
+
     # ---- R6 ---------------------------------------------------------------
     INJECTORS = {"asyncio.wait_for", "asyncio.timeout", "asyncio.timeout_at"}
     n6 = 0
@@ -467,6 +488,7 @@ TA = "src/hypergraph/runners/_shared/template_async.py"
 SR = "src/hypergraph/runners/sync/runner.py"
 AR = "src/hypergraph/runners/async_/runner.py"
 VARIANTS = [
+    Variant("carrier-message-from-args0", "src/hypergraph/exceptions.py", replace_once("        super().__init__(str(cause))", "        super().__init__(cause.args[0])"), {"C11.R2"}),
     Variant("async-step-fail-fast-cancel", AS, replace_once("    tasks = [execute_one(node) for node in ready_nodes]\n    results = await asyncio.gather(*tasks, return_exceptions=True)", "    tasks = [asyncio.ensure_future(execute_one(node)) for node in ready_nodes]\n    if len(tasks) > 1:\n        _, pending = await asyncio.wait(tasks, return_when=asyncio.FIRST_EXCEPTION)\n        for task in pending:\n            task.cancel()\n    results = await asyncio.gather(*tasks, return_exceptions=True)"), {"C11.R6"}),
     Variant("sync-superstep-wrap-runtimeerror", SS, replace_once("                    raise ExecutionError(e, new_state) from e", "                    raise RuntimeError(f\"node {node.name} failed\") from e"), {"C11.R1"}),
     Variant("runner-swallow-generic", SR, replace_once("            except ExecutionError:\n                raise\n            except Exception as e:\n                raise ExecutionError(e, state) from e", "            except ExecutionError:\n                raise\n            except Exception:\n                break"), {"C11.R1"}),
